@@ -683,12 +683,13 @@ def compare(S, funcs, wd, cls, gridv):
         if worst is None:
             continue
         sig.append((name, len(rows)))
+        _worst[0] = max(_worst[0], worst) if worst == worst else float("inf")
         if not (worst <= tol):
             bad.append((name, worst, wd_ + " (deviation %.3g of max|F|=%.4g, tolerance %g)" % (worst, fn.scale, tol)))
     return bad, sig
 
 
-FUNC_OF = {"line": 0, "spline": 1}
+_worst = [0.0]   # largest deviation/max|F| seen in tables of the last compare()
 
 
 def make_funcs(S, funckind, variant):
@@ -699,16 +700,24 @@ def make_funcs(S, funckind, variant):
     return funcs
 
 
+_cache = {}
+
+
 def run_case(c, exe, verbose=False):
     """c: dict(mix, cls, fpb, box, grid, func, cfg, nbs).  returns (ok, key, what, cls)"""
     wd = "fm_case"
     shutil.rmtree(wd, ignore_errors=True)
     os.makedirs(wd)
-    S = build(c["mix"], c["grid"], c["cfg"])
-    finalize(S, c["box"])
-    funcs = make_funcs(S, c["func"], c["cfg"])
-    F, samples = forces(S, funcs)
-    check_coverage(S, funcs, samples)
+    key = (c["mix"], c["grid"], c["cfg"], c["box"], c["func"])
+    if _cache.get("key") != key:   # the system does not depend on cls / fpb / nbsearch
+        _cache.clear()
+        S = build(c["mix"], c["grid"], c["cfg"])
+        finalize(S, c["box"])
+        funcs = make_funcs(S, c["func"], c["cfg"])
+        F, samples = forces(S, funcs)
+        check_coverage(S, funcs, samples)
+        _cache.update(key=key, val=(S, funcs, F))
+    S, funcs, F = _cache["val"]
     nbs = c["nbs"] if S.nb else ""
     write_inputs(S, F, wd, c["cls"], c["fpb"], c["grid"], nbs)
     rc, out = run_fmatch(wd, exe)
@@ -716,9 +725,11 @@ def run_case(c, exe, verbose=False):
         print(out[-1500:])
     if rc != 0:
         return False, "fmatch-exit-status-" + c["mix"], "csg_fmatch exited with %d: %s" % (rc, out[-400:].replace("\n", " | ")), None
+    _worst[0] = 0.0
     bad, sig = compare(S, funcs, wd, c["cls"], c["grid"])
     if not bad:
-        return True, "", "tables " + ", ".join("%s(%d rows)" % s for s in sig) + " reproduce the generating functions", \
+        return True, "", "tables " + ", ".join("%s(%d rows)" % s for s in sig) + \
+            " reproduce the generating functions (largest deviation %.2g of max|F|)" % _worst[0], \
             (c["mix"], c["cls"], c["func"], tuple(sig))
     what = "; ".join(b[2] for b in bad)
     has_angle = any(k == "angle" for k in S.kind.values())
